@@ -23,7 +23,7 @@ ASSUMPTIONS = ['documented stencils: the first/last 2mm+2 points for the mm poin
                'value is the exact derivative of the polynomial',
                'bound C*(eps*size*sum_j|w_j fx_j| + measured sensitivity to node displacement eps*stencil width)']
 C_PT = 256.0
-KINDS = ['uniform', 'increasing', 'decreasing', 'geometric', 'jittered', 'tiny_unit', 'huge_unit', 'integer_grid']
+KINDS = ['uniform', 'increasing', 'decreasing', 'geometric', 'jittered', 'tiny_unit', 'huge_unit', 'integer_grid', 'far_offset']
 
 
 def setup(ctx, mon):
@@ -55,6 +55,13 @@ def make_grid(rng, kind, length):
         # integer abscissae (uniform or not), handed over as an integer array or a list of Python ints, with integer samples
         x = int(rng.integers(-20, 21)) + np.cumsum(rng.integers(1, 4 if rng.random() < 0.6 else 2, size=length))
         return (x[::-1].copy() if rng.random() < 0.3 else x).astype(float)
+    if kind == 'far_offset':
+        # an ordinary grid far from the origin compared with its own extent (timestamps, 1e6 + linspace(0, 1, n)): the
+        # polynomial is written in the local variable, so the problem is as well conditioned as at the origin
+        steps = rng.uniform(0.2, 1.0, length) * 10.0 ** rng.uniform(-2, 0)
+        x = np.cumsum(steps)
+        x = float(np.round(10.0 ** rng.uniform(3, 9))) * float(rng.choice([-1, 1])) + x
+        return x[::-1].copy() if rng.random() < 0.3 else x
     if kind == 'jittered':
         # almost uniform: spacing perturbed by a relative 1e-9 .. 1e-3 (a grid that "looks" uniform is not uniform)
         d = 10.0 ** rng.uniform(-2, 0)
@@ -91,6 +98,8 @@ def run_case(case, ctx):
     else:
         unit = F(1)
         shift = F(float(np.round(x.mean(), 2))) if case['kind'] != 'integer_grid' else F(int(round(float(x.mean()))))
+        if case['kind'] == 'far_offset':
+            shift = xs[len(xs) // 2]
     fx_exact = [poly_eval(coefs, (v - shift) / unit) for v in xs]
     fx = np.array([float(v) for v in fx_exact])
     dcoefs = poly_deriv(coefs, n)
@@ -168,9 +177,12 @@ def run_case(case, ctx):
             sl, where = slice(i - mm, i + mm + 1), 'interior'
         nodes = [float(v) for v in x[sl]]
         w = lagrange_derivative_weights(nodes, float(x[i]), n)[n]
-        width = max(nodes) - min(nodes)
+        # (node differences are formed with a relative rounding of eps/2 each: nodes effectively displaced by eps times the
+        # distance to their nearest neighbour - not by eps times the stencil width or the distance from the origin)
+        srt = sorted(nodes)
+        gap = {v: min([abs(v - u) for u in srt if u != v] or [1.0]) for v in nodes}
         sg = rng.choice([-1.0, 1.0], len(nodes))
-        wp = lagrange_derivative_weights([v + s_ * EPS * width for v, s_ in zip(nodes, sg)], float(x[i]), n)[n]
+        wp = lagrange_derivative_weights([v + s_ * 2 * EPS * gap[v] for v, s_ in zip(nodes, sg)], float(x[i]), n)[n]
         vals = fx_exact[sl]
         scale = sum(abs(wj * fj) for wj, fj in zip(w, vals))
         sens = sum(abs((wj - wpj) * fj) for wj, wpj, fj in zip(w, wp, vals))
